@@ -442,6 +442,23 @@ Theorem C04_tried_asks_expected : forall ifs s sp it i n,
   end.
 Proof. exact tried_asks_expected. Qed.
 
+(* Found by the seed sweep after round 9 (generator case life522, seed 7; model = daemon), a genuine
+   finding, C04-stale-resolve-overlaps-series: the queued Resolve command of an instance is not
+   cancelled when the instance is resolved (it only leaves pending_resolves).  When a new series for
+   the same instance starts before the leftover runs (late schedule, or within 500 ms), the leftover
+   takes the instance out of pending_resolves although the new series is running, or continues as a
+   parallel series: more than three follow-up questions without new records (F04_many).  The class
+   known_overlapping_series: two Resolve retransmissions of one instance are queued when a
+   retransmission pass starts.  This is also the concrete shape of the obstacle named above for
+   the viol_C04 statement of the follow-up kinds: series can overlap. *)
+Theorem C04_known_overlapping_series_witness :
+  wf_history overlap_hist = true /\ known_overlapping_series ex_ifs overlap_hist = true
+  /\ map (fun o => length (questions_of o)) (run_history ex_ifs overlap_hist) = [0; 0; 0; 1; 2; 2; 1; 0]%nat
+  /\ existsb is_many_fail (viol_C04 ex_ifs overlap_hist (ex_wakes overlap_hist) (map obs_of (run_history ex_ifs overlap_hist))) = true
+  /\ known_overlapping_series ex_ifs ex_follow = false /\ known_overlapping_series ex_ifs ex_hist = false
+  /\ known_overlapping_series ex_ifs restart_hist = false.
+Proof. exact overlapping_series_witness. Qed.
+
 Theorem C04_known_found_withdrawn_witness :
   wf_history withdrawn_hist = true /\ known_found_withdrawn ex_ifs withdrawn_hist = true
   /\ map (fun o => (existsb is_found_evt o, questions_of o)) (run_history ex_ifs withdrawn_hist)
@@ -519,6 +536,7 @@ Print Assumptions C04_followups_as_specified_partial.
 Print Assumptions C04_iteration_found_unresolved.
 Print Assumptions C04_queued_due_is_tried.
 Print Assumptions C04_tried_asks_expected.
+Print Assumptions C04_known_overlapping_series_witness.
 Print Assumptions C04_known_found_withdrawn_witness.
 Print Assumptions C04_known_dotted_witness.
 Print Assumptions C04_known_last_second_refresh_witness.
